@@ -866,7 +866,12 @@ impl<'p, 's, M: Matcher, W: WriteColor> Sink for StandardSink<'p, 's, M, W> {
         }
         if searcher.binary_detection().convert_byte().is_some() {
             if self.binary_byte_offset.is_some() {
-                return Ok(false);
+                // Once binary data has been seen, context lines are no longer
+                // shown. But keep searching: a later matching line is what
+                // produces the "binary file matches" notice. (Stopping here
+                // made a file with a match after the binary data yield
+                // neither a match nor the notice when context was requested.)
+                return Ok(true);
             }
         }
 
